@@ -259,6 +259,16 @@ Theorem C07_remove_link_refuted :
   WF g /\ ~ WF (fst (step false flags_off g w_link_op [] [])).
 Proof. exact remove_link_refuted. Qed.
 Print Assumptions C07_remove_link_refuted.
+(* the library as it is (all landed repairs, incl. the rename check): rename to a used name is refused, the same name
+   through set_properties(name=...) is written; with the proposed C07-8 it is refused too *)
+Theorem C07_set_properties_name_refuted :
+  let g := run_hist false flags_rename_only empty_graph w_rename_hist in
+  WF g /\ ~ WF (fst (step false flags_rename_only g w_setprops_op [] [])) /\
+  snd (step false flags_rename_only g w_setprops_op [] []) = None /\
+  step false flags_rename_only g w_rename_op [] [] = (g, Some ETopology) /\
+  step false flags_on g w_setprops_op [] [] = (g, Some ETopology).
+Proof. exact set_properties_name_refuted. Qed.
+Print Assumptions C07_set_properties_name_refuted.
 Theorem C07_peer_self_refuted :
   let g := run_hist false flags_off empty_graph w_selfpeer_hist in
   WF g /\ ~ WF (fst (step false flags_off g w_selfpeer_op w_selfpeer_ids [])) /\
